@@ -270,6 +270,9 @@ Definition body_of (u : bytes) : bytes := if hex_of u then zdrop 2 u else u.
 Lemma zlen_ge3 {A} (a b c : A) r : (2 <? zlen (a :: b :: c :: r)) = true.
 Proof. apply Z.ltb_lt. rewrite !zlen_cons. pose proof (zlen_nonneg r). lia. Qed.
 
+Lemma zlen_ge3' {A} (a b c : A) r : (3 <=? zlen (a :: b :: c :: r)) = true.
+Proof. apply Z.leb_le. rewrite !zlen_cons. pose proof (zlen_nonneg r). lia. Qed.
+
 Lemma hex_split u :
   (match u with
    | a :: b :: ((_ :: _) as r) => if (a =? 48) && (lower b =? 120) then (true, r) else (false, u)
@@ -603,4 +606,279 @@ Proof.
     rewrite (lex_mant_app is_digit u w d1 dot d2 r3 eq_refl Hl).
     + rewrite Hnil, Hexp. cbn [andb]. f_equal. rewrite Et, Eb. reflexivity.
     + intros _. split; apply (blank_led_stops w); try exact Hw; [apply blank_not_digit|intros x; apply blank_not; lia].
+Qed.
+
+(* ------------------------------------------------------------------ *)
+(* strconv special (inf / infinity / nan) against the scanner's tests  *)
+(* ------------------------------------------------------------------ *)
+
+Lemma ic_eq c p : 97 <= p <= 122 ->
+  ((if (65 <=? c) && (c <=? 90) then c + 32 else c) =? p) = (c =? p) || (c =? p - 32).
+Proof. intro Hp. destruct ((65 <=? c) && (c <=? 90)) eqn:E; lia. Qed.
+
+Lemma cpl_nonneg s p : 0 <= common_prefix_len_ic s p.
+Proof.
+  revert p; induction s as [|c s IH]; intros [|q p]; cbn [common_prefix_len_ic]; try lia.
+  destruct (_ =? q); [specialize (IH p)|]; lia.
+Qed.
+
+Lemma cpl_inf3 s : 3 <= common_prefix_len_ic s str_infinity ->
+  exists a b c r, s = a :: b :: c :: r /\ has_inf_prefix s = true.
+Proof.
+  unfold str_infinity. intro H.
+  destruct s as [|a s]; [cbn in H; lia|]. cbn [common_prefix_len_ic] in H. rewrite ic_eq in H by lia.
+  destruct ((a =? 105) || (a =? 105 - 32)) eqn:Ea; [|lia].
+  destruct s as [|b s]; [cbn in H; lia|]. cbn [common_prefix_len_ic] in H. rewrite ic_eq in H by lia.
+  destruct ((b =? 110) || (b =? 110 - 32)) eqn:Eb; [|lia].
+  destruct s as [|c s]; [cbn in H; lia|]. cbn [common_prefix_len_ic] in H. rewrite ic_eq in H by lia.
+  destruct ((c =? 102) || (c =? 102 - 32)) eqn:Ec; [|lia].
+  exists a, b, c, s. split; [reflexivity|]. cbn [has_inf_prefix].
+  change (105 - 32) with 73 in Ea. change (110 - 32) with 78 in Eb. change (102 - 32) with 70 in Ec.
+  rewrite Ea, Eb, Ec. reflexivity.
+Qed.
+
+Lemma cpl_nan3 s : common_prefix_len_ic s str_nan = 3 ->
+  exists a b c r, s = a :: b :: c :: r /\ has_nan_prefix s = true.
+Proof.
+  unfold str_nan. intro H.
+  destruct s as [|a s]; [cbn in H; lia|]. cbn [common_prefix_len_ic] in H. rewrite ic_eq in H by lia.
+  destruct ((a =? 110) || (a =? 110 - 32)) eqn:Ea; [|lia].
+  destruct s as [|b s]; [cbn in H; lia|]. cbn [common_prefix_len_ic] in H. rewrite ic_eq in H by lia.
+  destruct ((b =? 97) || (b =? 97 - 32)) eqn:Eb; [|lia].
+  destruct s as [|c s]; [cbn in H; lia|]. cbn [common_prefix_len_ic] in H. rewrite ic_eq in H by lia.
+  destruct ((c =? 110) || (c =? 110 - 32)) eqn:Ec; [|lia].
+  exists a, b, c, s. split; [reflexivity|]. cbn [has_nan_prefix].
+  change (110 - 32) with 78 in Ea, Ec. change (97 - 32) with 65 in Eb.
+  rewrite Ea, Eb, Ec. reflexivity.
+Qed.
+
+Lemma special_inf_some neg nsign s d n : special_inf neg nsign s = Some (d, n) ->
+  d = DInf neg /\ 3 <= common_prefix_len_ic s str_infinity.
+Proof.
+  unfold special_inf. set (k := common_prefix_len_ic s str_infinity).
+  destruct ((3 <? k) && (k <? 8)) eqn:E.
+  - cbn [Z.eqb orb]. intro H. injection H as <- _. split; [reflexivity|lia].
+  - destruct ((k =? 3) || (k =? 8)) eqn:E2; [|discriminate]. intro H. injection H as <- _. split; [reflexivity|lia].
+Qed.
+
+(* the scanner's verdict on a text strconv's special accepts, whatever follows it *)
+Lemma scan_t_special start t w d n :
+  special t = Some (d, n) ->
+  (d = DNaN /\ scan_t start (t ++ w) = PSNaN) \/
+  (exists neg, d = DInf neg /\ scan_t start (t ++ w) = PSInf neg).
+Proof.
+  destruct t as [|c t']; [discriminate|]. cbn [special].
+  destruct (is_sign c) eqn:Es.
+  - intro H. destruct (special_inf_some _ _ _ _ _ H) as [-> H3].
+    destruct (cpl_inf3 t' H3) as [a [b [e [r [-> Hinf]]]]].
+    right. exists (c =? 45). split; [reflexivity|].
+    unfold scan_t. cbn [app opt_sign]. rewrite Es.
+    assert (Hn : has_nan_prefix (a :: b :: e :: r ++ w) = false).
+    { cbn [has_inf_prefix] in Hinf. cbn [has_nan_prefix].
+      apply andb_true_iff in Hinf as [Hinf _]. apply andb_true_iff in Hinf as [Ha _].
+      replace ((a =? 110) || (a =? 78)) with false by lia. reflexivity. }
+    rewrite Hn, andb_false_r.
+    replace (has_inf_prefix (a :: b :: e :: r ++ w)) with true by (symmetry; exact Hinf).
+    rewrite zlen_ge3'. reflexivity.
+  - destruct ((c =? 105) || (c =? 73)) eqn:Ei.
+    + intro H. destruct (special_inf_some _ _ _ _ _ H) as [-> H3].
+      destruct (cpl_inf3 _ H3) as [a [b [e [r [E Hinf]]]]]. injection E as <- ->.
+      right. exists false. split; [reflexivity|].
+      unfold scan_t. cbn [app opt_sign]. rewrite Es.
+      assert (Hn : has_nan_prefix (c :: b :: e :: r ++ w) = false).
+      { cbn [has_nan_prefix]. replace ((c =? 110) || (c =? 78)) with false by lia. reflexivity. }
+      rewrite Hn, andb_false_r.
+      replace (has_inf_prefix (c :: b :: e :: r ++ w)) with true by (symmetry; exact Hinf).
+      rewrite zlen_ge3'. cbn [andb]. f_equal. unfold is_sign in Es. lia.
+    + destruct ((c =? 110) || (c =? 78)) eqn:En; [|discriminate].
+      destruct (common_prefix_len_ic (c :: t') str_nan =? 3) eqn:E3; [|discriminate].
+      intro H. injection H as <- _. apply Z.eqb_eq in E3.
+      destruct (cpl_nan3 _ E3) as [a [b [e [r [E Hnan]]]]]. injection E as <- ->.
+      left. split; [reflexivity|].
+      unfold scan_t. cbn [app opt_sign]. rewrite Es.
+      replace (has_nan_prefix (c :: b :: e :: r ++ w)) with true by (symmetry; exact Hnan).
+      rewrite zlen_ge3'. reflexivity.
+Qed.
+
+(* ------------------------------------------------------------------ *)
+(* coherence of parseFloat and parseFloatPrefix                        *)
+(* ------------------------------------------------------------------ *)
+
+(* what strings.TrimSpace would return if only the six ASCII blanks were blanks *)
+Definition ascii_trim (s : bytes) : bytes :=
+  rev (snd (span ascii_space (rev (snd (span ascii_space s))))).
+
+Lemma forallb_rev {A} (p : A -> bool) l : forallb p l = true -> forallb p (rev l) = true.
+Proof.
+  induction l as [|x l IH]; cbn [rev forallb]; [auto|]. intro H. apply andb_true_iff in H as [Hx Hl].
+  rewrite forallb_app'. cbn [forallb]. rewrite (IH Hl), Hx. reflexivity.
+Qed.
+
+Lemma ascii_trim_decomp s : exists ws2,
+  span ascii_space s = (fst (span ascii_space s), ascii_trim s ++ ws2) /\ blank_led ws2.
+Proof.
+  unfold ascii_trim. destruct (span ascii_space s) as [ws1 r] eqn:E1. cbn [fst snd].
+  pose proof (span_spec ascii_space (rev r)) as [H1 [H2 _]].
+  destruct (span ascii_space (rev r)) as [a b] eqn:E2. cbn [fst snd] in *.
+  exists (rev a). split.
+  - f_equal. rewrite <- rev_app_distr, <- H1, rev_involutive. reflexivity.
+  - apply forallb_rev in H2. destruct (rev a) as [|c t]; [exact I|]. cbn [forallb] in H2.
+    apply andb_true_iff in H2 as [H2 _]. exact H2.
+Qed.
+
+Lemma go_parse_desc_nil : go_parse_desc [] = None.
+Proof. reflexivity. Qed.
+
+Lemma special_hex_none sg b r : sign_str sg -> special (sg ++ 48 :: b :: r) = None.
+Proof. intros [-> | [-> | ->]]; reflexivity. Qed.
+
+Lemma contains_skip x c t : contains x (c :: t) = false -> contains x t = false.
+Proof. cbn [contains]. intro H. apply orb_false_iff in H as [_ H]. exact H. Qed.
+
+(* parseFloatPrefix = the scanner, then the value of its verdict *)
+Definition pscan_value (r : pscan) : res fnum :=
+  match r with
+  | PSNaN => Ok FNaN
+  | PSInf n => Ok (FInf n)
+  | PSZero => Ok (FFin 0 0)
+  | PSNum _ txt patch =>
+      match go_parse_float (scan_text txt patch) with
+      | GSyntax => Ok (FFin 0 0)
+      | GVal v _ => Ok v
+      end
+  | PSPanic => Panic
+  end.
+
+Lemma parse_float_prefix_eq s : parse_float_prefix s = pscan_value (scan_prefix s).
+Proof. reflexivity. Qed.
+
+Lemma stops_p0 : stops is_hex_digit str_p0 /\ stops (fun c => c =? 46) str_p0.
+Proof. split; reflexivity. Qed.
+
+(* core: [t] is the trimmed text (non-empty), [text] what parseFloat hands to strconv *)
+Lemma coherence_core start t w sg u text x :
+  t <> [] -> opt_sign t = (sg, u) -> blank_led w ->
+  (text = t \/
+   (text = t ++ str_p0 /\ hex_of u = true /\ contains 112 t = false /\ contains 80 t = false)) ->
+  contains 95 text = false -> go_parse_float text = GVal x false ->
+  pscan_value (scan_t start (t ++ w)) = Ok x.
+Proof.
+  intros Htne Hos Hw Htext H95 Hgo.
+  destruct (opt_sign_inv _ _ _ Hos) as [Etsu Hsg].
+  unfold go_parse_float in Hgo. destruct (go_parse_desc text) as [d|] eqn:Hd; [|discriminate].
+  unfold go_parse_desc in Hd.
+  destruct (special text) as [[d' n]|] eqn:Hsp.
+  - (* inf / infinity / nan *)
+    destruct (n =? zlen text); [|discriminate]. injection Hd as ->.
+    assert (text = t) as ->.
+    { destruct Htext as [H | [-> [Hh _]]]; [exact H|exfalso].
+      destruct (hex_of_true_inv u Hh) as [b [c [r [Eu _]]]].
+      rewrite Etsu, Eu, <- app_assoc in Hsp. cbn [app] in Hsp. rewrite (special_hex_none sg b _ Hsg) in Hsp. discriminate. }
+    destruct (scan_t_special start t w d n Hsp) as [[-> Hs] | [neg [-> Hs]]]; rewrite Hs; cbn in Hgo |- *;
+      injection Hgo as <-; reflexivity.
+  - destruct (read_float text) as [[d' rest]|] eqn:Hrf; [|discriminate].
+    destruct rest; [|discriminate]. cbn [is_nil] in Hd. injection Hd as ->.
+    destruct (read_float_accept text d H95 Hrf) as [sg' [u' [d1 [dot [d2 [r3 [_ [Hos' [Hl [Hnil Hr3]]]]]]]]]].
+    destruct Htext as [-> | [-> [Hh [N112 N80]]]].
+    + (* the text is the trimmed string itself *)
+      rewrite Hos in Hos'. injection Hos' as <- <-.
+      assert (Hr3' : r3 = [] \/
+        (exists c es ed, r3 = c :: es ++ ed /\ (lower c =? (if hex_of u then 112 else 101)) = true /\
+           opt_sign (es ++ ed) = (es, ed) /\ ed <> [] /\ forallb is_digit ed = true))
+        by (destruct Hr3 as [[H _]|H]; [left; exact H|right; exact H]).
+      rewrite (scan_t_full start t w sg u d1 dot d2 r3 Hos Hl Hnil Hr3' Hw).
+      assert (Hpatch : hex_of u && is_nil r3 = false).
+      { destruct Hr3 as [[_ H]|[c [es [ed [-> _]]]]]; [rewrite H; reflexivity|apply andb_false_r]. }
+      rewrite Hpatch. cbn [pscan_value scan_text]. unfold go_parse_float, go_parse_desc.
+      rewrite Hsp, Hrf. cbn [is_nil]. destruct (desc_value d) as [v r]. injection Hgo as -> ->. reflexivity.
+    + (* "p0" was appended: the trimmed string is a hex mantissa without exponent *)
+      rewrite (opt_sign_app t str_p0 sg u Htne Hos) in Hos'. injection Hos' as <- <-.
+      destruct (hex_of_true_inv u Hh) as [b [c [r [Eu Hb]]]].
+      assert (Hh' : hex_of (u ++ str_p0) = true).
+      { rewrite Eu. unfold hex_of. cbn [app]. rewrite zlen_ge3. cbn [andb has_hex_prefix].
+        destruct Hb as [-> | ->]; reflexivity. }
+      rewrite Hh' in Hl, Hr3.
+      assert (Hbody : body_of (u ++ str_p0) = body_of u ++ str_p0).
+      { unfold body_of. rewrite Hh', Hh, Eu. reflexivity. }
+      rewrite Hbody in Hl. rewrite (lex_mant_ext _ _ _ mant_digit_hex) in Hl.
+      destruct (lex_mant is_hex_digit (body_of u)) as [[[a1 adot] a2] r3t] eqn:Hlt.
+      rewrite (lex_mant_app is_hex_digit (body_of u) str_p0 a1 adot a2 r3t eq_refl Hlt (fun _ => stops_p0)) in Hl.
+      injection Hl as <- <- <- <-.
+      assert (r3t = []) as ->.
+      { destruct r3t as [|c0 r3t']; [reflexivity|exfalso].
+        destruct Hr3 as [[H _]|[c1 [es [ed [H [Hc _]]]]]]; [discriminate|].
+        cbn [app] in H. injection H as <- _. rewrite lower_p in Hc.
+        pose proof (lex_mant_spec _ _ _ _ _ _ Hlt) as [Eb _].
+        assert (Hin : contains 112 (body_of u) = false /\ contains 80 (body_of u) = false).
+        { unfold body_of. rewrite Hh. split; apply contains_zdrop.
+          - rewrite Etsu, contains_app in N112. apply orb_false_iff in N112 as [_ H]. exact H.
+          - rewrite Etsu, contains_app in N80. apply orb_false_iff in N80 as [_ H]. exact H. }
+        destruct Hin as [I1 I2]. rewrite Eb, !contains_app in I1, I2. cbn [contains] in I1, I2.
+        repeat (apply orb_false_iff in I1 as [? I1]). repeat (apply orb_false_iff in I2 as [? I2]).
+        lia. }
+      assert (Hl2 : lex_mant (mant_digit (hex_of u)) (body_of u) = (a1, adot, a2, [])).
+      { rewrite Hh, (lex_mant_ext _ _ _ mant_digit_hex). exact Hlt. }
+      rewrite (scan_t_full start t w sg u a1 adot a2 [] Hos Hl2 Hnil (or_introl eq_refl) Hw).
+      rewrite Hh. cbn [andb is_nil pscan_value scan_text]. unfold go_parse_float, go_parse_desc.
+      rewrite Hsp, Hrf. cbn [is_nil]. destruct (desc_value d) as [v r']. injection Hgo as -> ->. reflexivity.
+Qed.
+
+Lemma parse_float_text_cases s :
+  let t := trim_space s in
+  match parse_float_text s with
+  | None => exists c a b e, t = [c; a; b; e] /\ is_sign c = true /\ has_nan_prefix [a; b; e] = true
+  | Some text =>
+      (t = [] /\ text = []) \/
+      (t <> [] /\ forall sg u, opt_sign t = (sg, u) ->
+         text = t \/ (text = t ++ str_p0 /\ hex_of u = true /\ contains 112 t = false /\ contains 80 t = false))
+  end.
+Proof.
+  unfold parse_float_text. set (t := trim_space s). cbv zeta.
+  destruct t as [|c t'] eqn:Et; [left; split; reflexivity|].
+  destruct ((1 <? zlen (c :: t')) && is_sign c) eqn:Hsigned.
+  - apply andb_true_iff in Hsigned as [_ Hsc].
+    destruct ((zlen (c :: t') =? 4) && has_nan_prefix t') eqn:Hnan.
+    + apply andb_true_iff in Hnan as [Hlen Hn]. apply Z.eqb_eq in Hlen.
+      destruct t' as [|a [|b [|e [|f r]]]]; try (vm_compute in Hlen; discriminate); try discriminate.
+      * exists c, a, b, e. auto.
+      * exfalso. rewrite !zlen_cons in Hlen. pose proof (zlen_nonneg r). lia.
+    + destruct ((3 <? zlen (c :: t')) && has_hex_prefix t' &&
+                (negb (contains 112 (c :: t')) && negb (contains 80 (c :: t')))) eqn:Hp.
+      * right. split; [discriminate|]. intros sg u Hos. right.
+        cbn [opt_sign] in Hos. rewrite Hsc in Hos. injection Hos as <- <-.
+        apply andb_true_iff in Hp as [Hp Hnop]. apply andb_true_iff in Hp as [Hlen Hhp].
+        apply andb_true_iff in Hnop as [N1 N2]. apply negb_true_iff in N1, N2.
+        split; [reflexivity|]. split; [|auto].
+        unfold hex_of. rewrite Hhp, andb_true_r. rewrite zlen_cons in Hlen. lia.
+      * right. split; [discriminate|]. intros sg u _. left. reflexivity.
+  - destruct ((2 <? zlen (c :: t')) && has_hex_prefix (c :: t') &&
+              (negb (contains 112 (c :: t')) && negb (contains 80 (c :: t')))) eqn:Hp.
+    + right. split; [discriminate|]. intros sg u Hos. right.
+      apply andb_true_iff in Hp as [Hp Hnop]. apply andb_true_iff in Hp as [Hlen Hhp].
+      apply andb_true_iff in Hnop as [N1 N2]. apply negb_true_iff in N1, N2.
+      assert (c = 48) as ->.
+      { destruct t'; [discriminate|]. cbn [has_hex_prefix] in Hhp. apply andb_true_iff in Hhp as [H _].
+        apply Z.eqb_eq in H. exact H. }
+      cbn in Hos. injection Hos as <- <-.
+      split; [reflexivity|]. split; [|auto]. unfold hex_of. rewrite Hlen, Hhp. reflexivity.
+    + right. split; [discriminate|]. intros sg u _. left. reflexivity.
+Qed.
+
+Theorem coherence_partial s x :
+  trim_space s = ascii_trim s -> parse_float s = PFOk x -> parse_float_prefix s = Ok x.
+Proof.
+  intros Htrim Hpf.
+  destruct (ascii_trim_decomp s) as [ws2 [Hspan Hw]].
+  rewrite parse_float_prefix_eq, scan_prefix_eq. rewrite Hspan. cbn [fst snd].
+  pose proof (parse_float_text_cases s) as Hc. cbv zeta in Hc. rewrite Htrim in Hc.
+  unfold parse_float in Hpf.
+  destruct (parse_float_text s) as [text|].
+  - destruct (go_parse_float text) as [|v r] eqn:Hgo; [discriminate|]. destruct r; [discriminate|].
+    destruct (contains 95 text) eqn:H95; [discriminate|]. injection Hpf as ->.
+    destruct Hc as [[_ ->] | [Htne Hc]]; [discriminate|].
+    destruct (opt_sign (ascii_trim s)) as [sg u] eqn:Hos.
+    exact (coherence_core _ (ascii_trim s) ws2 sg u text x Htne Hos Hw (Hc sg u eq_refl) H95 Hgo).
+  - injection Hpf as <-. destruct Hc as [c [a [b [e [Et [Hsc Hn]]]]]].
+    rewrite Et. unfold scan_t. cbn [app opt_sign]. rewrite Hsc, zlen_ge3'.
+    replace (has_nan_prefix (a :: b :: e :: ws2)) with true by (symmetry; exact Hn). reflexivity.
 Qed.
